@@ -750,7 +750,7 @@ pub fn mutate_lin<S: Lin>(
                 cols_touched[k] = true;
                 d.push(format!("proof[{k}]: columns rotated, paths kept"));
             }
-            11 if t > 1 => {
+            11 if t > 1 && tp > 1 => {
                 pr.opening.columns.rotate_left(1);
                 pr.opening.paths.rotate_left(1);
                 cols_touched[k] = true;
